@@ -274,3 +274,89 @@ func (o *Once) Do(f func()) {
 		o.waitFor()
 	}
 }
+
+// Locker is sync.Locker (Cond.L holds a rewritten Mutex or RWMutex, or any caller type).
+type Locker interface {
+	Lock()
+	Unlock()
+}
+
+// Cond replaces sync.Cond.  Wait returns only after a Signal or Broadcast that found it waiting
+// (no spurious wake-ups, as documented); Signal wakes the longest waiter.
+type Cond struct {
+	L       Locker
+	next    uint64
+	waiting []uint64
+	sema    byte
+}
+
+// NewCond implements sync.NewCond.
+func NewCond(l Locker) *Cond { return &Cond{L: l} }
+
+//go:norace
+func (c *Cond) enqueue() uint64 {
+	c.next++
+	if w := W; w != nil {
+		w.Stats.CondWaits++
+	}
+	c.waiting = append(c.waiting, c.next)
+	return c.next
+}
+
+//go:norace
+func (c *Cond) stillWaiting(t uint64) bool {
+	for _, x := range c.waiting {
+		if x == t {
+			w := W
+			if w == nil {
+				panic("simrt: Cond.Wait would block outside a simulated world")
+			}
+			w.block(unsafe.Pointer(c), "Cond.Wait")
+			return true
+		}
+	}
+	return false
+}
+
+//go:norace
+func (c *Cond) release(all bool) {
+	switch {
+	case len(c.waiting) == 0:
+		return
+	case all:
+		c.waiting = c.waiting[:0]
+	default:
+		for k := 1; k < len(c.waiting); k++ {
+			c.waiting[k-1] = c.waiting[k]
+		}
+		c.waiting = c.waiting[:len(c.waiting)-1]
+	}
+	if w := W; w != nil {
+		w.unblock(unsafe.Pointer(c))
+	}
+}
+
+// Wait implements sync.Cond.Wait.
+func (c *Cond) Wait() {
+	Yield(0, ClassSync)
+	t := c.enqueue()
+	c.L.Unlock()
+	for c.stillWaiting(t) {
+	}
+	raceAcquire(unsafe.Pointer(&c.sema))
+	c.L.Lock()
+}
+
+// Signal implements sync.Cond.Signal.
+func (c *Cond) Signal() {
+	Yield(0, ClassSync)
+	raceReleaseMerge(unsafe.Pointer(&c.sema))
+	c.release(false)
+}
+
+// Broadcast implements sync.Cond.Broadcast.
+func (c *Cond) Broadcast() {
+	Yield(0, ClassSync)
+	raceReleaseMerge(unsafe.Pointer(&c.sema))
+	c.release(true)
+}
